@@ -8,7 +8,8 @@ gaf, gfa, fa, out, cores, kill = sys.argv[1:7]
 import gaftools.cli.realign as RL
 
 if kill:
-    g, w, k = map(int, kill.split(":"))
+    g, w, k = map(int, kill.split(":")[:3])
+    sig = getattr(signal, kill.split(":")[3]) if kill.count(":") >= 3 else signal.SIGKILL
     orig = RL.wfa_alignment
     batch = int(os.environ["GAFTOOLS_VERIF_BATCH_SIZE"])
     C = int(cores)
@@ -24,7 +25,11 @@ if kill:
             def put(self, item):
                 if (gg, ww) == (g, w) and Q.n == k:
                     open(out + ".killed", "w").close()      # the fault was really injected (a worker may send fewer messages)
-                    os.kill(os.getpid(), signal.SIGKILL)
+                    os.kill(os.getpid(), sig)
+                    if sig != signal.SIGKILL:
+                        import time
+
+                        time.sleep(5)      # a handler that swallows the signal: the worker would go on; give it time to act on it
                 Q.n += 1
                 qu.put(item)
 
